@@ -601,6 +601,8 @@ def _convert_schema_path_to_regex(schema_path):
             index += stop
             continue
         break
+    # Append the text following the last field.
+    schema_regex += schema_path[index:].replace(".", r"\.")
     schema_regex += "$"
 
     for key in types:
